@@ -72,15 +72,26 @@ def getNode (j : Json) : Except String Node := do
 def getItem (j : Json) : Except String Item := do
   match ← (← field j "t").getStr? with
   | "node" => pure (.node (← getNode j))
-  | "unit" => pure (.unitdef (← getStr (← field j "name")) (← getStr (← field j "value"))
-      (← optOf getStr (fieldD j "unit")))
+  | "unit" =>
+    if fieldD j "ref" == Json.null then
+      pure (.unitdef (← getStr (← field j "name")) (← getVal (← field j "value")) (← optOf getStr (fieldD j "unit")))
+    else
+      pure (.unitref (← getStr (← field j "name")) (← getStr (← field j "ref")) (← optOf getStr (fieldD j "unit")))
+  | "optref" => pure (.optref (← getStr (← field j "ref")) (← optOf getStr (fieldD j "unit")))
+  | "case" =>
+    let indent ← (← field j "indent").getNat?
+    match ← (← field j "kind").getStr? with
+    | "cond" => pure (.case indent (.cond (← optOf getVal (fieldD j "raw")) (← optOf getStr (fieldD j "ref"))))
+    | "else" => pure (.case indent .els)
+    | "end" => pure (.case indent .fin)
+    | k => throw s!"bad case kind {k}"
   | "prop" =>
     match ← (← field j "p").getStr? with
     | "constant" => pure (.prop .constant)
     | "condition" => pure (.prop (.condition (← getStr (← field j "v"))))
     | "format" => pure (.prop (.format (← getStr (← field j "v"))))
     | "tags" => pure (.prop (.tags (← (← getList (← field j "v")).mapM getStr)))
-    | "option" => pure (.prop (.option (← getStr (← field j "v")) (← optOf getStr (fieldD j "unit"))))
+    | "option" => pure (.prop (.option (← getVal (← field j "v")) (← optOf getStr (fieldD j "unit"))))
     | "description" => pure (.prop (.description (← getStr (← field j "v"))))
     | p => throw s!"bad prop {p}"
   | t => throw s!"bad item {t}"
@@ -89,8 +100,8 @@ def optJ {α : Type} (f : α → Json) : Option α → Json
   | none => Json.null
   | some a => f a
 
-def optsJson (l : List (Str × Option Str)) : Json :=
-  jarr (fun (o : Str × Option Str) => Json.arr #[jS o.1, optJ jS o.2]) l
+def optsJson (l : List (Val × Option Str)) : Json :=
+  jarr (fun (o : Val × Option Str) => Json.arr #[valJson o.1, optJ jS o.2]) l
 
 def nodeJson (n : Node) : Json :=
   Json.mkObj [("name", jS n.name), ("kw", jstr (kwStr n.kw)), ("unit", optJ jS n.unitsRaw),
@@ -141,7 +152,11 @@ def getStmt (j : Json) : Except String SStmt := do
   | "condition" => pure (.condition path (← getStr (← field j "v")))
   | "format" => pure (.format path (← getStr (← field j "v")))
   | "tags" => pure (.tags path (← (← getList (← field j "v")).mapM getStr))
-  | "option" => pure (.option path (← getStr (← field j "v")) (← optOf getStr (fieldD j "unit")))
+  | "option" => pure (.option path (← getSVal (← field j "v")) (← optOf getStr (fieldD j "unit")))
+  | "unitdef" => pure (.unitdef (← getStr (← field j "name")) (← getSVal (← field j "v")) (← optOf getStr (fieldD j "unit")))
+  | "case" => pure (.caseCond (← getSVal (← field j "v")))
+  | "else" => pure .caseElse
+  | "end" => pure .caseEnd
   | "description" => pure (.description path (← getStr (← field j "v")))
   | t => throw s!"bad stmt {t}"
 
@@ -154,7 +169,7 @@ def snodeJson (n : SNode) : Json :=
 
 def envJson (e : Env) : Json :=
   Json.mkObj [("nodes", jarr nodeJson e.nodes),
-    ("units", jarr (fun (u : Str × Str × Option Str) => Json.arr #[jS u.1, jS u.2.1, optJ jS u.2.2]) e.units)]
+    ("units", jarr (fun (u : Str × Val × Option Str) => Json.arr #[jS u.1, valJson u.2.1, optJ jS u.2.2]) e.units)]
 
 /-- remote sources are parsed on their own, in order, each seeing the sources before it -/
 def parseSources (tbl : UnitTable) : List Json → List (Str × List Node) → Except String (List (Str × List Node))
@@ -162,7 +177,7 @@ def parseSources (tbl : UnitTable) : List Json → List (Str × List Node) → E
   | j :: rest, acc => do
     let name ← getStr (← field j "name")
     let items ← (← getList (← field j "items")).mapM getItem
-    match parse tbl { Env.empty with sources := acc } items with
+    match parseC tbl { Env.empty with sources := acc } items with
     | .error e => throw s!"source: {e}"
     | .ok env => parseSources tbl rest (acc ++ [(name, env.nodes)])
 
@@ -171,9 +186,18 @@ def specSources (tbl : UnitTable) : List Json → List (Str × List SNode) → E
   | j :: rest, acc => do
     let name ← getStr (← field j "name")
     let stmts ← (← getList (← field j "stmts")).mapM getStmt
-    match sRun tbl ⟨[], acc, false⟩ stmts with
+    match sRunC tbl (⟨[], acc, false, []⟩, none) stmts with
     | .error _ => pure none
-    | .ok env => specSources tbl rest (acc ++ [(name, env.nodes)])
+    | .ok (env, _) => specSources tbl rest (acc ++ [(name, env.nodes)])
+
+/-- name of `env.nodes[-1]` before every line of the main text (what a property line acts on) -/
+def lastTrace (tbl : UnitTable) : CEnv → List Item → List Json
+  | _, [] => []
+  | c, it :: rest =>
+    optJ (fun (n : Node) => jS n.name) c.env.nodes.getLast? ::
+      (match stepC tbl c it with
+       | .ok c' => lastTrace tbl c' rest
+       | .error _ => [])
 
 def runModel (tbl : UnitTable) (j : Json) : Except String Json := do
   let srcs ← getList (fieldD j "sources" |> fun x => if x == Json.null then Json.arr #[] else x)
@@ -185,17 +209,19 @@ def runModel (tbl : UnitTable) (j : Json) : Except String Json := do
     let mainItems ← (← getList (← field j "main")).mapM getItem
     let srcJson := jarr (fun (s : Str × List Node) => Json.mkObj [("name", jS s.1), ("nodes", jarr nodeJson s.2)]) sources
     if baseJ == Json.null then
-      match parse tbl env0 mainItems with
-      | .error e => pure (Json.mkObj [("err", jstr e), ("sources", srcJson)])
-      | .ok env => pure (Json.mkObj [("env", envJson env), ("sources", srcJson)])
+      let tr := Json.arr (lastTrace tbl ⟨env0, none⟩ mainItems).toArray
+      match parseC tbl env0 mainItems with
+      | .error e => pure (Json.mkObj [("err", jstr e), ("sources", srcJson), ("trace", tr)])
+      | .ok env => pure (Json.mkObj [("env", envJson env), ("sources", srcJson), ("trace", tr)])
     else
       let baseItems ← (← getList baseJ).mapM getItem
-      match parse tbl env0 baseItems with
+      match parseC tbl env0 baseItems with
       | .error e => pure (Json.mkObj [("base_err", jstr e), ("sources", srcJson)])
       | .ok benv =>
-        match parse tbl benv mainItems with
-        | .error e => pure (Json.mkObj [("err", jstr e), ("base", envJson benv), ("sources", srcJson)])
-        | .ok env => pure (Json.mkObj [("env", envJson env), ("base", envJson benv), ("sources", srcJson)])
+        let tr := Json.arr (lastTrace tbl ⟨benv, none⟩ mainItems).toArray
+        match parseC tbl benv mainItems with
+        | .error e => pure (Json.mkObj [("err", jstr e), ("base", envJson benv), ("sources", srcJson), ("trace", tr)])
+        | .ok env => pure (Json.mkObj [("env", envJson env), ("base", envJson benv), ("sources", srcJson), ("trace", tr)])
 
 def serrStr : SErr → String
   | .rejected => "rejected"
@@ -209,17 +235,18 @@ def runSpec (tbl : UnitTable) (j : Json) : Except String Json := do
     let baseJ := fieldD j "base"
     let baseStmts ← if baseJ == Json.null then pure [] else (← getList baseJ).mapM getStmt
     let mainStmts ← (← getList (← field j "main")).mapM getStmt
-    match sRun tbl ⟨[], sources, false⟩ baseStmts with
+    match sRunC tbl (⟨[], sources, false, []⟩, none) baseStmts with
     | .error _ => pure (jstr "outside")       -- the base itself must be a valid program
-    | .ok benv =>
+    | .ok (benv, _) =>
       if benv.mayReject then pure (jstr "outside") else
-      match sRun tbl benv mainStmts with
+      match sRunC tbl (benv, none) mainStmts with
       | .error e => pure (jstr (serrStr e))
-      | .ok env =>
+      | .ok (env, _) =>
         -- a declared node without value makes the real parse fail in its validation loop (C16)
         if env.nodes.any (fun n => n.value.isNone) then pure (jstr "outside") else
         pure (Json.mkObj [("nodes", jarr snodeJson env.nodes), ("mayReject", Json.bool env.mayReject),
           ("base", jarr snodeJson benv.nodes),
+          ("units", jarr (fun (u : Str × Val × Option Str) => Json.arr #[jS u.1, valJson u.2.1, optJ jS u.2.2]) env.units),
           ("sources", jarr (fun (s : Str × List SNode) => Json.mkObj [("name", jS s.1), ("nodes", jarr snodeJson s.2)]) sources)])
 
 /-- plain slicing probe: model `slice_value` and the Python-slice specification -/
